@@ -600,7 +600,7 @@ func init() {
 
 // c05Paths: exact-domain correspondence + exact property
 func c05Paths(c *Ctx) error {
-	n := c.N(12000, 400000)
+	n := c.N(40000, 600000)
 	if c.Search {
 		n *= 3
 	}
@@ -761,7 +761,7 @@ func c05Paths(c *Ctx) error {
 
 // c05Tolerance: general decimals, float-tolerance oracle written in Go
 func c05Tolerance(c *Ctx) error {
-	n := c.N(6000, 200000)
+	n := c.N(20000, 300000)
 	if c.Search {
 		n *= 3
 	}
@@ -834,7 +834,7 @@ func c05Tolerance(c *Ctx) error {
 // c05Numbers: the private copy of the Number model and the AppendFloat model against the real functions,
 // and the printed-number shape contract (`goodNum`) on the real minify.Number
 func c05Numbers(c *Ctx) error {
-	n := c.N(20000, 400000)
+	n := c.N(50000, 600000)
 	st := c.R.StartStage("numbers", "number lexemes in every notation (values k/8 and general decimals) through minify.Number at precision 0 and 15 vs the private model copy; shape contract goodNum on the real output; non-trivial = output differs from input")
 	type nc struct {
 		s    string
